@@ -12,8 +12,10 @@
                    APPLICATION OBJECT EXISTS: QCoreApplication::notifyInternal2 returns at once for
                    a QThread-started thread when QCoreApplication::self is null, and the event is
                    then deleted undelivered (customEvent never runs, pending is never decremented).
-     ADone         customEvent: BaseHandler::process has returned (the sinks have the message),
-                   THEN pending--.
+     ADone ok      customEvent: BaseHandler::process has returned `ok` (the wrapped handler has
+                   seen the message; ok = false: it REJECTED it — a filter, a FunctionHandler, any
+                   Handler may; a Logger/Pipeline never does), THEN pending--.  The code discards
+                   the result: the decrement happens whatever `ok` is (switch du, below).
      AResetStart i resetOwnThread called by stopper thread i: lock; `if (!m_thread) return`.
                    SEVERAL threads may be inside resetOwnThread at once (one entry of `stops` each).
      AResetCheck   the loop test `pending > 0`: true -> unlock and sleep (RSleep); false -> quit,
@@ -47,7 +49,7 @@ Record st := mk_st {
 }.
 
 Inductive act :=
-| APost (m : nat) | ATake | ADone
+| APost (m : nat) | ATake | ADone (ok : bool)   (* ok : what the wrapped handler's process() returned *)
 | AResetStart (i : nat) | AResetCheck (i : nat) | AResetWake (i : nat)   (* i : which stopper *)
 | AAppDie | AMove.
 
@@ -64,8 +66,11 @@ Definition startable (r : rstate) : bool := match r with RIdle | RDone => true |
 Definition undone (r : rstate) : rstate := match r with RDone => RIdle | x => x end.
 
 (* rc : the code re-tests `if (!m_thread) return;` after the relock in the wait loop (translated
-   from the source: rechecks_after_relock src_skeleton) *)
-Definition step (rc : bool) (s : st) (a : act) : option st :=
+   from the source: rechecks_after_relock src_skeleton)
+   du : Worker::customEvent decrements m_pendingCount whatever the wrapped handler returned
+   (translated from the source: dec_unconditional src_skeleton).  With du = false a message the
+   handler rejects is handled but never counted down. *)
+Definition step (rc du : bool) (s : st) (a : act) : option st :=
   match a with
   | APost m =>
       if mtx s then None else
@@ -80,9 +85,10 @@ Definition step (rc : bool) (s : st) (a : act) : option st :=
           Some (mk_st true true q (Some m) (pending s) (mtx s) (stops s) (log s) (accepted s))
       | _, _, _, _ => None
       end
-  | ADone =>
+  | ADone ok =>
       match inflight s with
-      | Some m => Some (mk_st (app s) (worker s) (queue s) None (pred (pending s)) (mtx s) (stops s)
+      | Some m => Some (mk_st (app s) (worker s) (queue s) None
+                              (if du || ok then pred (pending s) else pending s) (mtx s) (stops s)
                               (log s ++ [m]) (accepted s))
       | None => None
       end
@@ -127,17 +133,17 @@ Definition step (rc : bool) (s : st) (a : act) : option st :=
   end.
 
 (* an arbitrary action list: actions that are not enabled are skipped *)
-Fixpoint run (rc : bool) (s : st) (tr : list act) : st :=
+Fixpoint run (rc du : bool) (s : st) (tr : list act) : st :=
   match tr with
   | [] => s
-  | a :: r => match step rc s a with Some s' => run rc s' r | None => run rc s r end
+  | a :: r => match step rc du s a with Some s' => run rc du s' r | None => run rc du s r end
   end.
 
 (* every action must be enabled *)
-Fixpoint run_strict (rc : bool) (s : st) (tr : list act) : option st :=
+Fixpoint run_strict (rc du : bool) (s : st) (tr : list act) : option st :=
   match tr with
   | [] => Some s
-  | a :: r => match step rc s a with Some s' => run_strict rc s' r | None => None end
+  | a :: r => match step rc du s a with Some s' => run_strict rc du s' r | None => None end
   end.
 
 (* a : an application object exists; w : asynchronous mode already on; k : number of stoppers *)
@@ -149,6 +155,12 @@ Definition stuck_b (s : st) : bool :=
   && match inflight s with None => true | Some _ => false end
   && match queue s with [] => false | _ :: _ => true end.
 
+(* the pending count is larger than what is queued or in hand: a count has leaked, the wait loop of
+   a stop can never see zero again (decidable form of the second way a stop can hang; unreachable
+   with du = true, ShutdownProofs.never_leaks) *)
+Definition leaked_b (s : st) : bool :=
+  worker s && Nat.ltb (length (queue s) + length (opt_list (inflight s))) (pending s).
+
 Definition is_active (r : rstate) : bool := match r with RCheck | RSleep => true | _ => false end.
 Definition errorb (s : st) : bool := existsb (fun r => match r with RError => true | _ => false end) (stops s).
 
@@ -158,14 +170,15 @@ Definition mu (s : st) : nat := 2 * length (queue s) + length (opt_list (infligh
 Definition sw (r : rstate) : nat := match r with RSleep => 2 | RCheck => 1 | _ => 0 end.
 Fixpoint sm (l : list rstate) : nat := match l with [] => 0 | r :: t => sw r + sm t end.
 Fixpoint drain_schedule (q : nat) : list act :=
-  match q with O => [] | S q' => ATake :: ADone :: drain_schedule q' end.
+  match q with O => [] | S q' => ATake :: ADone true :: drain_schedule q' end.
 
 (* ------------------------------------------------------------------ recorded traces --------- *)
 (* What h_shutdown records, totally ordered by the order of its write(2) calls:
      EPost m          hook own.locked on a producer thread whose current message is m
      ETake            hook worker.before_process
      EDeliver m sync  the recording sink has finished with m (sync = on the caller's thread)
-     EDone            hook worker.decremented
+     EDone ok         hook worker.decremented; ok = what the recording handler returned for the
+                      message it had just been given (false: the wrapped handler rejected it)
      EResetLocked i   hook reset.locked on stopper thread i (past `if (!m_thread) return`, mutex held)
      EResetWaiting i  hook reset.waiting (loop test was true; unlock/sleep/relock follow)
      EResetQuit i     hook reset.quit (loop test was false; quit/wait/clear follow)
@@ -176,7 +189,7 @@ Fixpoint drain_schedule (q : nat) : list act :=
      EReturned m      the logging call for m has returned to the producer
      EExit            static destruction is over (atexit handler registered before the logger) *)
 Inductive ev :=
-| EPost (m : nat) | ETake | EDeliver (m : nat) (sync : bool) | EDone
+| EPost (m : nat) | ETake | EDeliver (m : nat) (sync : bool) | EDone (ok : bool)
 | EResetLocked (i : nat) | EResetWaiting (i : nat) | EResetQuit (i : nat) | EStopEnd (i : nat)
 | EAppGone | EMove | EReturned (m : nat) | EExit.
 
@@ -193,15 +206,15 @@ Definition mem (m : nat) (l : list nat) : bool := existsb (Nat.eqb m) l.
 Definition wake_if_asleep (s : st) (i : nat) : list act :=
   match nth_error (stops s) i with Some RSleep => [AResetWake i] | _ => [] end.
 
-Definition astep (rc : bool) (a : acc) (e : ev) : option acc :=
+Definition astep (rc du : bool) (a : acc) (e : ev) : option acc :=
   let s := ms a in
   match e with
   | EPost m =>
       if mem m (accepted s) then None else
       if negb (worker s) && negb (list_eqb (log s) (obs a)) then None else
-      match step rc s (APost m) with Some s' => Some (mk_acc s' (obs a)) | None => None end
+      match step rc du s (APost m) with Some s' => Some (mk_acc s' (obs a)) | None => None end
   | ETake =>
-      match step rc s ATake with Some s' => Some (mk_acc s' (obs a)) | None => None end
+      match step rc du s ATake with Some s' => Some (mk_acc s' (obs a)) | None => None end
   | EDeliver m true =>
       if negb (worker s) && list_eqb (log s) (obs a ++ [m]) then Some (mk_acc s (obs a ++ [m])) else None
   | EDeliver m false =>
@@ -209,22 +222,22 @@ Definition astep (rc : bool) (a : acc) (e : ev) : option acc :=
       | Some m' => if Nat.eqb m m' && list_eqb (log s) (obs a) then Some (mk_acc s (obs a ++ [m])) else None
       | None => None
       end
-  | EDone =>
-      match step rc s ADone with
+  | EDone ok =>
+      match step rc du s (ADone ok) with
       | Some s' => if list_eqb (log s') (obs a) then Some (mk_acc s' (obs a)) else None
       | None => None
       end
   | EResetLocked i =>
       if worker s
-      then match step rc s (AResetStart i) with Some s' => Some (mk_acc s' (obs a)) | None => None end
+      then match step rc du s (AResetStart i) with Some s' => Some (mk_acc s' (obs a)) | None => None end
       else None
   | EResetWaiting i =>
-      match run_strict rc s (wake_if_asleep s i ++ [AResetCheck i]) with
+      match run_strict rc du s (wake_if_asleep s i ++ [AResetCheck i]) with
       | Some s' => match nth_error (stops s') i with Some RSleep => Some (mk_acc s' (obs a)) | _ => None end
       | None => None
       end
   | EResetQuit i =>
-      match run_strict rc s (wake_if_asleep s i ++ [AResetCheck i]) with
+      match run_strict rc du s (wake_if_asleep s i ++ [AResetCheck i]) with
       | Some s' => match nth_error (stops s') i with
                    | Some RDone => if list_eqb (obs a) (accepted s') then Some (mk_acc s' (obs a)) else None
                    | _ => None
@@ -236,21 +249,21 @@ Definition astep (rc : bool) (a : acc) (e : ev) : option acc :=
       | Some RDone => Some a
       | Some RIdle =>      (* no thread: returned at once, no hook fired *)
           if worker s then None
-          else match step rc s (AResetStart i) with Some s' => Some (mk_acc s' (obs a)) | None => None end
+          else match step rc du s (AResetStart i) with Some s' => Some (mk_acc s' (obs a)) | None => None end
       | Some RSleep =>     (* woke up, found no thread (another stop completed), returned: no hook fired *)
           if worker s then None
-          else match step rc s (AResetWake i) with
+          else match step rc du s (AResetWake i) with
                | Some s' => match nth_error (stops s') i with Some RDone => Some (mk_acc s' (obs a)) | _ => None end
                | None => None
                end
       | _ => None
       end
   | EAppGone =>
-      match step rc s AAppDie with Some s' => Some (mk_acc s' (obs a)) | None => None end
+      match step rc du s AAppDie with Some s' => Some (mk_acc s' (obs a)) | None => None end
   | EMove =>
       if worker s then Some a
       else if list_eqb (log s) (obs a)   (* no synchronous delivery is under way: it holds the mutex *)
-           then match step rc s AMove with Some s' => Some (mk_acc s' (obs a)) | None => None end
+           then match step rc du s AMove with Some s' => Some (mk_acc s' (obs a)) | None => None end
            else None
   | EReturned m => if mem m (accepted s) then Some a else None
   | EExit => if negb (worker s) && list_eqb (obs a) (accepted s) then Some a else None
@@ -260,13 +273,13 @@ Definition astep (rc : bool) (a : acc) (e : ev) : option acc :=
    the model after the ones before it (the state reached before it is returned) *)
 Inductive verdict := Accepted (a : acc) | Rejected (k : nat) (a : acc).
 
-Fixpoint accept_from (rc : bool) (k : nat) (a : acc) (evs : list ev) : verdict :=
+Fixpoint accept_from (rc du : bool) (k : nat) (a : acc) (evs : list ev) : verdict :=
   match evs with
   | [] => Accepted a
-  | e :: r => match astep rc a e with Some a' => accept_from rc (S k) a' r | None => Rejected k a end
+  | e :: r => match astep rc du a e with Some a' => accept_from rc du (S k) a' r | None => Rejected k a end
   end.
-Definition accept_shutdown (rc : bool) (app0 worker0 : bool) (nstop : nat) (evs : list ev) : verdict :=
-  accept_from rc 0 (mk_acc (init app0 worker0 nstop) []) evs.
+Definition accept_shutdown (rc du : bool) (app0 worker0 : bool) (nstop : nat) (evs : list ev) : verdict :=
+  accept_from rc du 0 (mk_acc (init app0 worker0 nstop) []) evs.
 
 (* boolean oracle on the observations alone (no model state): the delivered list is a prefix of
    the posted list *)
@@ -294,6 +307,7 @@ Inductive instr :=
 | SConnectFinishedDeleteThread | SNewWorker | SWorkerToThread | SConnectFinishedDeleteWorker | SStartThread
 | SIfWorker (thn els : list instr) | SIncPending | SPostEvent | SProcessBase | SDecPending
 | SIfLogEvent (body : list instr) | SIfCast (body : list instr)
+| SRetIfRejected (* `if (!BaseHandler::process(...)) return;` — leaves customEvent when the wrapped handler returned false *)
 | SCallReset | SReturn | SOther.
 
 Record skeleton := mk_skeleton {
@@ -312,6 +326,20 @@ Fixpoint has_recheck (l : list instr) (seen_relock : bool) : bool :=
 Definition rechecks_after_relock (sk : skeleton) : bool :=
   existsb (fun x => match x with SWhilePending b => has_recheck b false | _ => false end) (sk_reset sk).
 
+(* is the decrement of customEvent executed whatever BaseHandler::process returned?  i.e. the call
+   is a plain statement (SProcessBase: result discarded) directly followed by SDecPending, inside
+   the two guards *)
+Fixpoint proc_then_dec (l : list instr) : bool :=
+  match l with
+  | [] => false
+  | SProcessBase :: t => match t with SDecPending :: _ => true | _ => proc_then_dec t end
+  | _ :: t => proc_then_dec t
+  end.
+Definition guarded_body (x : instr) : list instr :=
+  match x with SIfLogEvent b => b | SIfCast b => b | _ => [x] end.
+Definition dec_unconditional (sk : skeleton) : bool :=
+  proc_then_dec (flat_map guarded_body (flat_map guarded_body (sk_custom_event sk))).
+
 Definition modelled_skeleton : skeleton := {|
   sk_reset := [SLock; SRetIfNoThread; SWhilePending [SUnlock; SSleep; SRelock; SRetIfNoThread]; SQuit;
                SWaitElseTerminate; SDisconnectAboutToQuit; SClearThread; SClearWorker; SUnlock];
@@ -328,3 +356,9 @@ Definition pre_repair_skeleton : skeleton := {|
                SWaitElseTerminate; SDisconnectAboutToQuit; SClearThread; SClearWorker; SUnlock];
   sk_move := sk_move modelled_skeleton; sk_dtor := sk_dtor modelled_skeleton;
   sk_process := sk_process modelled_skeleton; sk_custom_event := sk_custom_event modelled_skeleton |}.
+
+(* customEvent leaving early, before the decrement, when the wrapped handler rejected the message *)
+Definition early_return_skeleton : skeleton := {|
+  sk_reset := sk_reset modelled_skeleton; sk_move := sk_move modelled_skeleton; sk_dtor := sk_dtor modelled_skeleton;
+  sk_process := sk_process modelled_skeleton;
+  sk_custom_event := [SIfLogEvent [SIfCast [SRetIfRejected; SDecPending]]] |}.
